@@ -1,21 +1,1038 @@
-//! Monitor for property C19 (see /verif/DESIGN.md §6).
+//! Monitor for property C19 - `\input`, `\endinput` and `\read` treat files as lines standing in
+//! place (DESIGN.md §6 C19).
+//!
+//! Events observed (all at the public boundary of the real code, through vstate): the characters
+//! handed to `vm::Handlers`, the outcome of `VM::run` (fatal error title), every macro expansion
+//! reported by `post_macro_expansion_hook` (name, arguments, body - this is how "the target of
+//! `\read` is a parameterless macro whose body is the line" is seen), and the guarded hook H2
+//! `VM::verif_snapshot().num_sources` read by `\vprobe`.
+//!
+//! Oracles
+//!  O1  vmodels::inputfiles - a miniature TeX written from tex.web §343-362, 378, 482-486, 494-510,
+//!      526, 537-538, 1275 - interprets the same text and file map; output, outcome, probe depths
+//!      and macro bodies must be equal.
+//!  O2  the tree generator writes files in execution order and knows by construction which marker
+//!      words are live and in which order ("inline expansion of the tree"); the real output's marker
+//!      sequence must equal it.  If O1 and O2 disagree with each other the case is INCONCLUSIVE.
+//!  O3  differential: the generator also writes ONE text with every file's lines in place
+//!      (scanner-state neutral by construction, see gen.rs); the same VM must print the same on it.
+//!  O4  nesting chains: depth <= 95 must succeed exactly, depth >= 102 (and every recursion) must
+//!      end in the documented "too many input levels" error after 95..=101 opened files - never a
+//!      crash, a success or another error -, 96..=101 either way.
+//!  O5  panic oracle on every run; the source stack must be back at its old height after a run
+//!      that ended normally.
+//!
+//! Known findings are attributed only by trigger predicate + deviation model (`model::Sem`):
+//! the real observation must equal, in every compared component, what the model predicts with
+//! exactly the listed rules replaced, for a minimal set of such rules whose triggers occur.
+
+mod gen;
+mod readgen;
+
+use std::collections::BTreeMap;
 use vcore::*;
+use vmodels::inputfiles as model;
+use vmodels::inputfiles::{Sem, Status};
+use vstate::{Event, VmOptions};
 
 pub struct M;
 pub static MONITOR: M = M;
+
+const K_ENDINPUT: &str = "C19-endinput-drops-rest-of-line";
+const K_IFEOF: &str = "C19-ifeof-one-read-early";
+const K_EMPTY: &str = "C19-input-empty-file-no-blank-line";
+
+// ------------------------------------------------------------------------------------------
+// running the real code
+
+#[derive(Debug, Clone)]
+struct Real {
+    ok: bool,
+    title: String,
+    out: String,
+    probes: Vec<i64>,
+    /// (name, number of arguments, body)
+    macros: Vec<(String, usize, String)>,
+    sources_before: usize,
+    sources_after: usize,
+    panic: Option<PanicInfo>,
+}
+
+fn probe_fn(vm: &vstate::texlang::vm::VM<vstate::VState>) -> Value {
+    json!(vm.verif_snapshot().num_sources)
+}
+
+fn run_real(files: &[(String, String)], terminal: &[String], main: &str) -> Real {
+    let opts = VmOptions {
+        files: files.to_vec(),
+        terminal_lines: terminal.to_vec(),
+        record_macros: true,
+        ..VmOptions::default()
+    };
+    let main = main.to_string();
+    let r = catch(move || {
+        let mut vm = vstate::new_vm(&opts);
+        vm.state.mon.probe_fn = Some(probe_fn);
+        let before = vm.verif_snapshot().num_sources;
+        let o = vstate::run(&mut vm, "main.tex", &main);
+        let out = vstate::take_out(&mut vm);
+        let ev = vstate::take_events(&mut vm);
+        let probes: Vec<i64> = vm.state.mon.probes.iter().map(|v| v.as_i64().unwrap_or(-1)).collect();
+        let after = vm.verif_snapshot().num_sources;
+        (o, out, ev, probes, before, after)
+    });
+    match r {
+        Ok((o, out, ev, probes, before, after)) => {
+            let macros = ev
+                .into_iter()
+                .filter_map(|e| match e {
+                    Event::Macro { name, args, expansion } => Some((name, args.len(), expansion)),
+                    _ => None,
+                })
+                .collect();
+            Real {
+                ok: o.is_ok(),
+                title: o.err_title().unwrap_or("").to_string(),
+                out,
+                probes,
+                macros,
+                sources_before: before,
+                sources_after: after,
+                panic: None,
+            }
+        }
+        Err(p) => Real {
+            ok: false,
+            title: String::new(),
+            out: String::new(),
+            probes: vec![],
+            macros: vec![],
+            sources_before: 0,
+            sources_after: 0,
+            panic: Some(p),
+        },
+    }
+}
+
+// ------------------------------------------------------------------------------------------
+// comparing an observation with a model run
+
+fn relative(v: &[i64]) -> Vec<i64> {
+    match v.first() {
+        None => vec![],
+        Some(b) => v.iter().map(|x| x - b).collect(),
+    }
+}
+
+/// None = equal in every compared component; Some(kind) = first component that differs.
+fn differs(real: &Real, m: &model::Run) -> Option<&'static str> {
+    match (&m.status, real.ok) {
+        (Status::Ok, false) => return Some("unexpected-error"),
+        (Status::Error(_), true) => return Some("error-expected-but-run-succeeded"),
+        (Status::OutOfDomain(_), _) => return Some("model-out-of-domain"),
+        _ => {}
+    }
+    if real.out != m.out {
+        return Some("output");
+    }
+    let mp: Vec<i64> = m.probes.iter().map(|x| *x as i64).collect();
+    if relative(&real.probes) != relative(&mp) {
+        return Some("source-stack-depth");
+    }
+    if real.macros.len() != m.macro_calls.len() {
+        return Some("macro-expansions");
+    }
+    for (r, e) in real.macros.iter().zip(m.macro_calls.iter()) {
+        if r.1 != 0 {
+            return Some("macro-has-parameters");
+        }
+        if r.0 != e.0 || r.2 != e.1 {
+            return Some("macro-meaning");
+        }
+    }
+    None
+}
+
+#[derive(Clone, Copy, PartialEq, Eq, Debug)]
+enum Dev {
+    Endinput,
+    Ifeof,
+    Empty,
+}
+
+impl Dev {
+    fn id(self) -> &'static str {
+        match self {
+            Dev::Endinput => K_ENDINPUT,
+            Dev::Ifeof => K_IFEOF,
+            Dev::Empty => K_EMPTY,
+        }
+    }
+    fn trigger(self, f: &model::Flags) -> bool {
+        match self {
+            Dev::Endinput => f.endinput_nonblank_rest > 0,
+            Dev::Ifeof => f.eof_pending_observed > 0,
+            Dev::Empty => f.empty_file_inputs > 0,
+        }
+    }
+}
+
+const DEV_SETS: &[&[Dev]] = &[
+    &[Dev::Endinput],
+    &[Dev::Ifeof],
+    &[Dev::Empty],
+    &[Dev::Endinput, Dev::Empty],
+    &[Dev::Endinput, Dev::Ifeof],
+    &[Dev::Ifeof, Dev::Empty],
+    &[Dev::Endinput, Dev::Ifeof, Dev::Empty],
+];
+
+fn sem_of(set: &[Dev]) -> Sem {
+    Sem {
+        endinput_drops_rest: set.contains(&Dev::Endinput),
+        ifeof_early: set.contains(&Dev::Ifeof),
+        empty_file_no_line: set.contains(&Dev::Empty),
+    }
+}
+
+enum Verdict {
+    Pass,
+    Known(Vec<Dev>),
+    Fail(&'static str),
+}
+
+struct Checked {
+    verdict: Verdict,
+    tex: model::Run,
+    real: Real,
+}
+
+fn files_map(files: &[(String, String)]) -> BTreeMap<String, String> {
+    files.iter().cloned().collect()
+}
+
+/// Run the real code and the model on one program and classify the observation.
+fn check_program(files: &[(String, String)], terminal: &[String], main: &str) -> Checked {
+    let fm = files_map(files);
+    let tex = model::run(&fm, terminal, main, Sem::default());
+    let real = run_real(files, terminal, main);
+    if real.panic.is_some() {
+        return Checked { verdict: Verdict::Fail("panic"), tex, real };
+    }
+    let d = differs(&real, &tex);
+    let verdict = match d {
+        None => {
+            if real.ok && real.sources_after != real.sources_before {
+                Verdict::Fail("source-stack-not-restored-after-run")
+            } else {
+                Verdict::Pass
+            }
+        }
+        Some(kind) => {
+            let mut v = Verdict::Fail(kind);
+            for set in DEV_SETS {
+                let dev = model::run(&fm, terminal, main, sem_of(set));
+                if matches!(dev.status, Status::OutOfDomain(_)) {
+                    continue;
+                }
+                if differs(&real, &dev).is_some() {
+                    continue;
+                }
+                // every member's trigger predicate must occur (in TeX's run or in the deviating one)
+                if set.iter().all(|d| d.trigger(&tex.flags) || d.trigger(&dev.flags)) {
+                    v = Verdict::Known(set.to_vec());
+                    break;
+                }
+            }
+            v
+        }
+    };
+    Checked { verdict, tex, real }
+}
+
+fn detail(files: &[(String, String)], terminal: &[String], main: &str, c: &Checked) -> Value {
+    json!({
+        "files": files.iter().map(|(n, c)| json!({"name": n, "content": c})).collect::<Vec<_>>(),
+        "terminal": terminal,
+        "main": main,
+        "model": {"status": format!("{:?}", c.tex.status), "out": c.tex.out, "probes": c.tex.probes,
+                  "macros": c.tex.macro_calls},
+        "real": {"ok": c.real.ok, "error_title": c.real.title, "out": c.real.out, "probes": c.real.probes,
+                 "macros": c.real.macros, "sources_before": c.real.sources_before,
+                 "sources_after": c.real.sources_after},
+        "expected_markers": gen::markers_of(&c.tex.out),
+        "real_markers": gen::markers_of(&c.real.out),
+    })
+}
+
+/// Report the verdict. Returns true if the case passed or was attributed to known findings.
+fn report(obs: &mut Obs, label: &str, files: &[(String, String)], terminal: &[String], main: &str, c: &Checked) -> bool {
+    match &c.verdict {
+        Verdict::Pass => {
+            obs.count(&format!("{label}.pass"));
+            true
+        }
+        Verdict::Known(set) => {
+            for d in set {
+                obs.count(&format!("{label}.known.{}", d.id()));
+                let sem = sem_of(set);
+                let dev = model::run(&files_map(files), terminal, main, sem);
+                let mut det = detail(files, terminal, main, c);
+                if let Value::Object(m) = &mut det {
+                    m.insert("deviation_model_out".into(), json!(dev.out));
+                    m.insert("deviations_applied".into(), json!(set.iter().map(|d| d.id()).collect::<Vec<_>>()));
+                }
+                obs.known(d.id(), det);
+            }
+            true
+        }
+        Verdict::Fail(kind) => {
+            if let Some(p) = &c.real.panic {
+                if p.budget {
+                    obs.violation(
+                        format!("{label}:step-budget-exceeded (program does not terminate)"),
+                        detail(files, terminal, main, c),
+                    );
+                } else {
+                    obs.repo_panic(p, detail(files, terminal, main, c));
+                }
+            } else {
+                obs.violation(format!("{label}:{kind}"), detail(files, terminal, main, c));
+            }
+            false
+        }
+    }
+}
+
+fn add_flags(obs: &mut Obs, f: &model::Flags) {
+    let rows: &[(&str, u64)] = &[
+        ("m.inputs", f.inputs),
+        ("m.inputs_name_ended_by_space", f.inputs_term_space),
+        ("m.inputs_name_ended_by_eol", f.inputs_term_eol),
+        ("m.inputs_from_token_list", f.inputs_from_token_list),
+        ("m.empty_file_inputs", f.empty_file_inputs),
+        ("m.endinput_executed", f.endinput_exec),
+        ("m.endinput_with_nonblank_rest", f.endinput_nonblank_rest),
+        ("m.endinput_from_token_list", f.endinput_from_token_list),
+        ("m.endinput_in_main", f.endinput_in_main),
+        ("m.files_ended", f.files_ended),
+        ("m.file_left_group_open", f.file_left_group_open),
+        ("m.file_left_conditional_open", f.file_left_cond_open),
+        ("m.file_closed_outer_group", f.file_closed_outer_group),
+        ("m.file_closed_outer_conditional", f.file_closed_outer_cond),
+        ("m.lines_unread_behind_endinput", f.lines_unread_after_endinput),
+        ("m.par_tokens", f.pars),
+        ("m.skipped_regions", f.skipped_regions),
+        ("m.macro_expansions", f.macro_calls),
+        ("m.openin_found", f.openin_found),
+        ("m.openin_missing", f.openin_missing),
+        ("m.closein", f.closein),
+        ("m.reads", f.reads),
+        ("m.reads_multiline_group", f.reads_multiline),
+        ("m.reads_unmatched_close_brace", f.reads_unmatched_close),
+        ("m.reads_of_appended_empty_line", f.reads_final_empty_line),
+        ("m.reads_from_terminal", f.reads_terminal),
+        ("m.reads_inside_group", f.reads_in_group),
+        ("m.ifeof_true", f.ifeof_true),
+        ("m.ifeof_false", f.ifeof_false),
+        ("m.eof_pending_observed", f.eof_pending_observed),
+    ];
+    for (k, v) in rows {
+        if *v > 0 {
+            obs.add(k, *v);
+        }
+    }
+}
+
+// ------------------------------------------------------------------------------------------
+// phase "tree"
+
+fn tree_case(rng: &mut Rng, obs: &mut Obs) {
+    let case = gen::Gen::new(rng).tree();
+    for (k, v) in &case.feats {
+        obs.add(&format!("g.{k}"), *v);
+    }
+    obs.count(&format!("g.tree_max_depth_{}", case.max_depth));
+    obs.add("g.files", case.files.len() as u64);
+    let c = check_program(&case.files, &[], &case.main);
+    add_flags(obs, &c.tex.flags);
+    obs.count(&format!("m.max_file_depth_{}", c.tex.flags.max_file_depth.saturating_sub(1)));
+
+    // O1 against O2: the model and the generator's definition must agree, else nothing is decided
+    if c.tex.status != Status::Ok {
+        obs.inconclusive(format!("tree: model status {:?} on a generated case", c.tex.status));
+        return;
+    }
+    let model_markers = gen::markers_of(&c.tex.out);
+    if model_markers != case.expected_markers {
+        obs.inconclusive("tree: model and generator bookkeeping disagree on the marker order");
+        if obs.verbose {
+            println!("model {:?}\nbookkeeping {:?}", model_markers, case.expected_markers);
+        }
+        return;
+    }
+    let mut exp_probes: Vec<i64> = vec![0];
+    exp_probes.extend(case.expected_probe_depths.iter().map(|d| *d as i64));
+    let mp: Vec<i64> = c.tex.probes.iter().map(|x| *x as i64).collect();
+    if relative(&mp) != exp_probes {
+        obs.inconclusive("tree: model and generator bookkeeping disagree on the file depth at the probes");
+        return;
+    }
+    if c.tex.flags.inputs > 0 || c.tex.flags.endinput_exec > 0 {
+        obs.nontrivial(&(&case.files, &case.main));
+    }
+    obs.add("tree.markers_checked", model_markers.len() as u64);
+    obs.add("tree.probes_checked", c.tex.probes.len() as u64);
+    let passed = report(obs, "tree", &case.files, &[], &case.main, &c);
+    if matches!(c.verdict, Verdict::Pass) {
+        // O2 explicitly (implied by O1 = O2, kept as an independent statement of the definition)
+        if gen::markers_of(&c.real.out) != case.expected_markers {
+            obs.violation("tree:marker-order", detail(&case.files, &[], &case.main, &c));
+        }
+    }
+
+    // O3 differential on the inlined text
+    if passed && case.neutral {
+        let no_files: Vec<(String, String)> = vec![];
+        let ci = check_program(&no_files, &[], &case.inlined);
+        if ci.tex.status != Status::Ok || ci.tex.out != c.tex.out {
+            obs.inconclusive("tree: the inlined text is not equivalent to the tree according to the model");
+            if obs.verbose {
+                println!("inlined:\n{}\nmodel(tree)={:?}\nmodel(inl) ={:?}", case.inlined, c.tex.out, ci.tex.out);
+            }
+            return;
+        }
+        obs.count("diff.runs");
+        let tree_known = matches!(c.verdict, Verdict::Known(_));
+        match &ci.verdict {
+            Verdict::Pass => {
+                if ci.real.out == c.real.out {
+                    obs.count("diff.equal");
+                } else if tree_known {
+                    obs.count("diff.differs_where_known_finding_applies");
+                } else {
+                    obs.violation(
+                        "diff:tree-and-inlined-runs-differ",
+                        json!({"tree": detail(&case.files, &[], &case.main, &c), "inlined": case.inlined,
+                               "inlined_out": ci.real.out}),
+                    );
+                }
+            }
+            Verdict::Known(_) => {
+                // only \endinput in the main file survives inlining
+                report(obs, "diff", &no_files, &[], &case.inlined, &ci);
+                if ci.real.out == c.real.out {
+                    obs.count("diff.equal");
+                } else {
+                    obs.count("diff.differs_where_known_finding_applies");
+                }
+            }
+            Verdict::Fail(_) => {
+                report(obs, "diff", &no_files, &[], &case.inlined, &ci);
+            }
+        }
+    } else if passed {
+        obs.count("diff.not_applicable_inlining_not_state_neutral");
+    }
+    if obs.wants_sample() {
+        obs.sample(json!({
+            "files": case.files, "main": case.main, "inlined": case.inlined, "neutral": case.neutral,
+            "expected_markers": case.expected_markers, "real_out": c.real.out, "model_out": c.tex.out,
+            "probe_depths": c.real.probes,
+        }));
+    }
+}
+
+// ------------------------------------------------------------------------------------------
+// phase "place": every placement of \input / \endinput within a line (enumerated)
+
+const PLACE_FILES: &[&str] = &[
+    "",
+    "\n",
+    "A1\n",
+    "A1",
+    "A1\nB2\n",
+    "A1 \nB2",
+    "  A1  B2  \n",
+    "\nA1\n",
+    "A1\n\n",
+    "A1\\endinput\nZ9\n",
+    "A1 \\endinput B2\nZ9\n",
+    "\\endinput A1 B2\nZ9",
+    "{A1\n",
+    "\\iftrue A1\n",
+];
+// (blanks before the primitive, blanks after it / name ending)
+const PLACE_BEFORE: &[&str] = &["", " ", "  "];
+const PLACE_AFTER: &[&str] = &[" ", "  ", "\n"];
+const PLACE_WHAT: usize = 4; // \input, \endinput, macro containing \input, macro containing \endinput
+const PLACE_HOST: usize = 3; // line in main, line in an \input file, last line (no newline) of an \input file
+const PLACE_POS: usize = 4;
+
+fn place_count() -> u64 {
+    (PLACE_FILES.len() * PLACE_BEFORE.len() * PLACE_AFTER.len() * PLACE_WHAT * PLACE_HOST * PLACE_POS) as u64
+}
+
+fn place_case(idx: u64, obs: &mut Obs) {
+    let mut i = idx as usize;
+    let fv = i % PLACE_FILES.len();
+    i /= PLACE_FILES.len();
+    let before = PLACE_BEFORE[i % PLACE_BEFORE.len()];
+    i /= PLACE_BEFORE.len();
+    let after = PLACE_AFTER[i % PLACE_AFTER.len()];
+    i /= PLACE_AFTER.len();
+    let what = i % PLACE_WHAT;
+    i /= PLACE_WHAT;
+    let host = i % PLACE_HOST;
+    i /= PLACE_HOST;
+    let pos = i % PLACE_POS;
+
+    // the line: three words W5 W6 W7 with the primitive at position pos (0 = before W5 .. 3 = after W7)
+    let prim = match what {
+        0 => "\\input g".to_string(),
+        1 => "\\endinput".to_string(),
+        2 => "\\mi".to_string(),
+        _ => "\\me".to_string(),
+    };
+    let words = ["W5", "W6", "W7"];
+    let mut line = String::new();
+    for k in 0..=words.len() {
+        if k == pos {
+            line.push_str(before);
+            gen::put(&mut line, &prim);
+            if k < words.len() || after != "\n" {
+                // "\n": the line ends behind the primitive, the remaining words stand on the next line
+                line.push_str(after);
+            }
+        }
+        if k < words.len() {
+            gen::put(&mut line, words[k]);
+            if k + 1 < words.len() && k + 1 != pos {
+                line.push(' ');
+            } else if k + 1 < words.len() && before.is_empty() && pos == k + 1 {
+                // no blank at all between the word and the primitive
+            }
+        }
+    }
+    // for \input inside a macro body the name is always ended by a blank inside the body
+    let pre = "\\def\\par{!}\\def\\mi{M3 \\input g M4}\\def\\me{M3 \\endinput M4}\\vprobe\n";
+    let mut files = vec![("g.tex".to_string(), PLACE_FILES[fv].to_string())];
+    let main = match host {
+        0 => format!("{pre}{line}\nV8 \\vprobe\n"),
+        1 => {
+            files.push(("h.tex".to_string(), format!("H1\n{line}\nH2\n")));
+            format!("{pre}S0 \\input h E9\\vprobe\n")
+        }
+        _ => {
+            files.push(("h.tex".to_string(), format!("H1\n{line}")));
+            format!("{pre}S0 \\input h E9\\vprobe\n")
+        }
+    };
+    // the property's quantifier excludes \input behind an executed \endinput on one line; the
+    // enumerated lines contain one primitive only, but the *file* g may end its own host line - no:
+    // g's \endinput concerns g only.  Nothing to exclude here.
+    let c = check_program(&files, &[], &main);
+    add_flags(obs, &c.tex.flags);
+    match c.tex.status {
+        Status::Ok => {}
+        ref s => {
+            obs.inconclusive(format!("place: model status {s:?}"));
+            return;
+        }
+    }
+    obs.nontrivial_by_construction(1);
+    obs.count(match what {
+        0 => "place.input",
+        1 => "place.endinput",
+        2 => "place.input_in_macro",
+        _ => "place.endinput_in_macro",
+    });
+    report(obs, "place", &files, &[], &main, &c);
+    if obs.wants_sample() && idx % 97 == 0 {
+        obs.sample(json!({"files": files, "main": main, "real_out": c.real.out, "model_out": c.tex.out}));
+    }
+}
+
+// ------------------------------------------------------------------------------------------
+// phase "chain": nesting limit
+
+fn count_opened(out: &str, letter: char) -> usize {
+    gen::markers_of(out).iter().filter(|m| m.starts_with(letter)).count()
+}
+
+fn chain_case(idx: u64, rng: &mut Rng, obs: &mut Obs) {
+    let variant = idx % 4;
+    if variant == 3 {
+        // recursion: a cycle of 1..3 files
+        let cyc = 1 + rng.below(3) as usize;
+        let mut files = vec![];
+        for i in 0..cyc {
+            let next = (i + 1) % cyc;
+            let body = match rng.below(3) {
+                0 => format!("R{i} \\input r{next} Q{i}\n"),
+                1 => format!("R{i}\n\\input r{next}\nQ{i}\n"),
+                _ => format!("R{i} \\input r{next}.tex"),
+            };
+            files.push((format!("r{i}.tex"), body));
+        }
+        let main = "\\def\\par{!}S \\input r0 E\n".to_string();
+        let real = run_real(&files, &[], &main);
+        obs.count("chain.recursion_cases");
+        obs.nontrivial(&(&files, &main));
+        let det = json!({"files": files, "main": main, "real": {"ok": real.ok, "title": real.title, "out_len": real.out.len()}});
+        if let Some(p) = &real.panic {
+            if p.budget {
+                obs.violation("chain:recursion-not-stopped (step budget exceeded)", det);
+            } else {
+                obs.repo_panic(p, det);
+            }
+            return;
+        }
+        if real.ok {
+            obs.violation("chain:recursion-succeeded", det);
+            return;
+        }
+        if !real.title.contains("too many input levels") {
+            obs.violation("chain:recursion-ended-in-another-error", det);
+            return;
+        }
+        let k = count_opened(&real.out, 'R');
+        obs.count(&format!("chain.recursion_refused_after_{k}_files"));
+        let well_formed = real.out.starts_with("S ")
+            && gen::markers_of(&real.out[2..]).iter().enumerate().all(|(j, m)| *m == format!("R{}", j % cyc));
+        if !(95..=101).contains(&k) || !well_formed {
+            obs.violation("chain:recursion-refused-at-wrong-depth-or-output-garbled", det);
+        } else {
+            obs.count("chain.recursion_refused_with_documented_error");
+        }
+        return;
+    }
+    // linear chain of depth d
+    let d: usize = match variant {
+        0 => (idx / 4) as usize % 140,
+        1 => 88 + rng.below(24) as usize,
+        _ => rng.below(140) as usize,
+    };
+    let mut files = vec![];
+    for i in 1..=d {
+        let content = if i == d {
+            match rng.below(3) {
+                0 => format!("X{i}\\vprobe\n"),
+                1 => format!("X{i} \\vprobe"),
+                _ => format!("\nX{i}\n\\vprobe\n"),
+            }
+        } else {
+            let n = i + 1;
+            match rng.below(5) {
+                0 => format!("O{i} \\input c{n} C{i}\n"),
+                1 => format!("O{i}\n\\input c{n}\nC{i}\n"),
+                2 => format!("O{i} \\input c{n}.tex\nC{i}"),
+                3 => format!("{{O{i} \\input  c{n} }}C{i}\n"),
+                _ => format!("O{i}\\iftrue\\input c{n} \\fi C{i}"),
+            }
+        };
+        files.push((format!("c{i}.tex"), content));
+    }
+    let main = if d == 0 {
+        "\\def\\par{!}\\vprobe\nS X0\\vprobe E\n".to_string()
+    } else {
+        "\\def\\par{!}\\vprobe\nS \\input c1 E\n".to_string()
+    };
+    let fm = files_map(&files);
+    let tex = model::run(&fm, &[], &main, Sem::default());
+    if tex.status != Status::Ok {
+        obs.inconclusive(format!("chain: model status {:?}", tex.status));
+        return;
+    }
+    let real = run_real(&files, &[], &main);
+    obs.nontrivial(&(&files, &main));
+    let class = if d <= 95 {
+        "must_succeed"
+    } else if d <= 101 {
+        "grey"
+    } else {
+        "must_be_refused"
+    };
+    obs.count(&format!("chain.depth_class_{class}"));
+    let c = Checked { verdict: Verdict::Pass, tex, real };
+    let det = || {
+        json!({"depth": d, "main": main, "real": {"ok": c.real.ok, "title": c.real.title, "out": c.real.out,
+               "probes": c.real.probes}, "model_out": c.tex.out, "files_sample": files.iter().take(3).collect::<Vec<_>>() })
+    };
+    if let Some(p) = &c.real.panic {
+        if p.budget {
+            obs.violation("chain:step-budget-exceeded", det());
+        } else {
+            obs.repo_panic(p, det());
+        }
+        return;
+    }
+    if c.real.ok {
+        if d >= 102 {
+            obs.violation("chain:nesting-beyond-the-documented-limit-succeeded", det());
+            return;
+        }
+        match differs(&c.real, &c.tex) {
+            None => {
+                obs.count(&format!("chain.ok_{class}"));
+                if c.real.probes.len() == 2 && c.real.probes[1] - c.real.probes[0] == d as i64 {
+                    obs.count("chain.num_sources_equals_depth");
+                }
+            }
+            Some(k) => obs.violation(format!("chain:{k}"), det()),
+        }
+    } else {
+        if !c.real.title.contains("too many input levels") {
+            obs.violation("chain:unexpected-error", det());
+            return;
+        }
+        if d <= 95 {
+            obs.violation("chain:nesting-within-the-limit-refused", det());
+            return;
+        }
+        let k = count_opened(&c.real.out, 'O');
+        obs.count(&format!("chain.refused_after_{k}_files"));
+        if !c.tex.out.starts_with(&c.real.out) || !(95..=101).contains(&k) {
+            obs.violation("chain:refused-at-wrong-depth-or-output-not-a-prefix", det());
+            return;
+        }
+        obs.count(&format!("chain.refused_{class}"));
+    }
+    if obs.wants_sample() {
+        obs.sample(json!({"depth": d, "ok": c.real.ok, "title": c.real.title, "out_len": c.real.out.len(),
+                          "probes": c.real.probes}));
+    }
+}
+
+// ------------------------------------------------------------------------------------------
+// phases "read" (random) and "readenum" (enumerated)
+
+fn check_read_program(obs: &mut Obs, label: &str, files: &[(String, String)], terminal: &[String], main: &str) -> Option<Checked> {
+    let c = check_program(files, terminal, main);
+    add_flags(obs, &c.tex.flags);
+    match &c.tex.status {
+        Status::OutOfDomain(r) => {
+            obs.inconclusive(format!("{label}: model out of domain: {r}"));
+            return None;
+        }
+        Status::Error(e) => obs.count(&format!("{label}.tex_error:{e}")),
+        Status::Ok => {}
+    }
+    report(obs, label, files, terminal, main, &c);
+    Some(c)
+}
+
+fn read_case(rng: &mut Rng, obs: &mut Obs) {
+    let case = readgen::read_case(rng);
+    for (k, v) in &case.feats {
+        obs.add(&format!("g.{k}"), *v);
+    }
+    obs.count(if case.safe_mode { "read.cases_avoiding_known_trigger" } else { "read.cases_unrestricted" });
+    let c = match check_read_program(obs, "read", &case.files, &case.terminal, &case.main) {
+        None => return,
+        Some(c) => c,
+    };
+    if case.safe_mode && c.tex.flags.eof_pending_observed > 0 {
+        obs.inconclusive("read: generator steering failed (safe case looked at a stream with EOF pending)");
+    }
+    if c.tex.flags.reads > c.tex.flags.reads_terminal {
+        obs.nontrivial(&(&case.files, &case.main, &case.terminal));
+    }
+    obs.count(&format!("m.max_streams_open_{}", c.tex.flags.max_streams_open));
+    if obs.wants_sample() {
+        obs.sample(json!({"files": case.files, "terminal": case.terminal, "main": case.main,
+            "real_out": c.real.out, "model_out": c.tex.out, "macros": c.real.macros}));
+    }
+}
+
+const RE_FILES: &[&str] = &[
+    "",
+    "\n",
+    "A1",
+    "A1\n",
+    "A1\nB2",
+    "A1\nB2\n",
+    "{A1\nB2}\n",
+    "A1}Z8\nB2\n",
+    "A1\n\n",
+    "\nA1\n",
+    "A1 {\n\n B2 }  C3\nD4",
+    "  A1  \\relax  B2  \n",
+];
+const RE_MAX_OPS: u32 = 5;
+
+fn readenum_count() -> u64 {
+    // op sequences of length 1..=5 over {read, ifeof, closein, openin}
+    let seqs: u64 = (1..=RE_MAX_OPS).map(|l| 4u64.pow(l)).sum();
+    seqs * RE_FILES.len() as u64
+}
+
+fn readenum_case(idx: u64, obs: &mut Obs) {
+    let f = (idx % RE_FILES.len() as u64) as usize;
+    let mut s = idx / RE_FILES.len() as u64;
+    let mut len = 1;
+    while s >= 4u64.pow(len) {
+        s -= 4u64.pow(len);
+        len += 1;
+    }
+    let stream = 3 + (idx % 13); // 3..15
+    let mut prog = format!("\\def\\par{{!}}\\def\\x{{x0}}\\openin{stream}=r ");
+    let mut reads = 0;
+    for k in 0..len {
+        let op = (s / 4u64.pow(k)) % 4;
+        match op {
+            0 => {
+                reads += 1;
+                prog.push_str(&format!("\\read{stream} to\\x[\\x]"));
+            }
+            1 => prog.push_str(&format!("\\ifeof{stream} t{k}\\else f{k}\\fi")),
+            2 => prog.push_str(&format!("\\closein{stream}\\relax")),
+            _ => prog.push_str(&format!("\\openin{stream}=r ")),
+        }
+    }
+    prog.push_str(&format!("\\ifeof{stream} t9\\else f9\\fi"));
+    let files = vec![("r.tex".to_string(), RE_FILES[f].to_string())];
+    // the terminal supplies lines for reads from a stream that TeX (or today's code) has closed
+    let terminal: Vec<String> = (0..reads).map(|i| format!("Q{i}")).collect();
+    obs.nontrivial_by_construction(1);
+    check_read_program(obs, "readenum", &files, &terminal, &prog);
+}
+
+// ------------------------------------------------------------------------------------------
+// phase "known": one fixed reproducer per finding
+
+fn known_case(idx: u64, obs: &mut Obs) {
+    let (files, terminal, main): (Vec<(String, String)>, Vec<String>, String) = match idx {
+        0 => (
+            vec![("f.tex".into(), "A1\\endinput B2\nZ3\n".into())],
+            vec![],
+            "\\def\\par{!}X4 \\input f Y5\nW6\n".into(),
+        ),
+        1 => (
+            vec![("f.tex".into(), "A1\nB2\n".into())],
+            vec!["Q7".into()],
+            "\\def\\par{!}\\openin1=f \\read1 to\\x[\\x]\\read1 to\\x[\\x]\\ifeof1 t1\\else f1\\fi\\read1 to\\x[\\x]\\ifeof1 t2\\else f2\\fi\n"
+                .into(),
+        ),
+        _ => (vec![("e.tex".into(), "".into())], vec![], "\\def\\par{!}A1\\input e B2\n".into()),
+    };
+    let c = check_program(&files, &terminal, &main);
+    add_flags(obs, &c.tex.flags);
+    obs.nontrivial_by_construction(1);
+    report(obs, "known", &files, &terminal, &main, &c);
+    if obs.wants_sample() {
+        obs.sample(json!({"files": files, "main": main, "real_out": c.real.out, "tex_out": c.tex.out}));
+    }
+}
+
+// ------------------------------------------------------------------------------------------
+// calibration: the model against the repository's unit-test tables (input.rs)
+
+struct Row {
+    name: &'static str,
+    files: &'static [(&'static str, &'static str)],
+    terminal: &'static [&'static str],
+    lhs: &'static str,
+    rhs: &'static str,
+    /// rules under which the repository's expectation holds (TeX itself, or the pinned deviation)
+    sem: Sem,
+    /// literal that must still stand in input.rs for the row to be ground truth
+    literal: &'static str,
+}
+
+const TEX: Sem = Sem { endinput_drops_rest: false, ifeof_early: false, empty_file_no_line: false };
+const PIN_ENDINPUT: Sem = Sem { endinput_drops_rest: true, ifeof_early: false, empty_file_no_line: false };
+const PIN_IFEOF: Sem = Sem { endinput_drops_rest: false, ifeof_early: true, empty_file_no_line: false };
+
+const FS1: &[(&str, &str)] = &[
+    ("file1.tex", "content1\n"),
+    ("file2.tex", "content2%\n"),
+    ("file3.tex", "\\input nested/file4"),
+    ("nested/file4.tex", "content4"),
+    ("file5.tex", "file1.tex"),
+];
+const FS2: &[(&str, &str)] = &[("file1.tex", "Hello\\def\\Macro{Hola\\endinput Mundo}\\Macro World\n")];
+const FS3: &[(&str, &str)] = &[
+    ("file1.tex", "1\n2%\n3"),
+    ("file2.tex", "1{\n2\n3}"),
+    ("file3.tex", "1}1\n2"),
+    ("file4.tex", ""),
+    ("file5.tex", "hello { world"),
+];
+const TERM: &[&str] = &["first-line", "second-line {", "third-line }", "fourth}line"];
+
+fn rows() -> Vec<Row> {
+    vec![
+        Row { name: "basic_case", files: FS1, terminal: &[], lhs: "\\input file1 hello", rhs: "content1 hello", sem: TEX, literal: r#"(basic_case, r"\input file1 hello", "content1 hello")"# },
+        Row { name: "input_together", files: FS1, terminal: &[], lhs: "\\input file2 hello", rhs: "content2hello", sem: TEX, literal: r#"(input_together, r"\input file2 hello", r"content2hello")"# },
+        Row { name: "basic_case_with_ext", files: FS1, terminal: &[], lhs: "\\input file1.tex", rhs: "content1 ", sem: TEX, literal: r#"(basic_case_with_ext, r"\input file1.tex", r"content1 ")"# },
+        Row { name: "nested", files: FS1, terminal: &[], lhs: "\\input file3", rhs: "content4", sem: TEX, literal: r#"(nested, r"\input file3", r"content4")"# },
+        Row { name: "nested_2", files: FS1, terminal: &[], lhs: "\\input \\input file5", rhs: "content1 ", sem: TEX, literal: r#"(nested_2, r"\input \input file5", r"content1 ")"# },
+        Row { name: "end_input_simple", files: FS2, terminal: &[], lhs: "Hello\\endinput World", rhs: "Hello", sem: PIN_ENDINPUT, literal: r#"(end_input_simple, r"Hello\endinput World", "Hello",)"# },
+        Row { name: "end_input_in_second_file", files: FS2, terminal: &[], lhs: "Before\\input file1 After", rhs: "BeforeHelloHolaMundoAfter", sem: PIN_ENDINPUT, literal: r#""BeforeHelloHolaMundoAfter""# },
+        Row { name: "ifeof_nothing_open", files: FS3, terminal: &[], lhs: "\\ifeof 0 Closed\\else Open\\fi", rhs: "Closed", sem: TEX, literal: r#"r"\ifeof 0 Closed\else Open\fi""# },
+        Row { name: "ifeof_non_existent_file", files: FS3, terminal: &[], lhs: "\\openin 0 doesNotExist \\ifeof 0 Closed\\else Open\\fi", rhs: "Closed", sem: TEX, literal: r#"r"\openin 0 doesNotExist \ifeof 0 Closed\else Open\fi""# },
+        Row { name: "ifeof_file_exists", files: FS3, terminal: &[], lhs: "\\openin 0 file1 \\ifeof 0 Closed\\else Open\\fi", rhs: "Open", sem: TEX, literal: r#"r"\openin 0 file1 \ifeof 0 Closed\else Open\fi""# },
+        Row { name: "ifeof_non_existent_file_2", files: FS3, terminal: &[], lhs: "\\openin 0 file1 \\openin 0 doesNotExist \\ifeof 0 Closed\\else Open\\fi", rhs: "Closed", sem: TEX, literal: r#"r"\openin 0 file1 \openin 0 doesNotExist \ifeof 0 Closed\else Open\fi""# },
+        Row { name: "ifeof_file_closed", files: FS3, terminal: &[], lhs: "\\openin 0 file1 \\closein 0 \\ifeof 0 Closed\\else Open\\fi", rhs: "Closed", sem: TEX, literal: r#"r"\openin 0 file1 \closein 0 \ifeof 0 Closed\else Open\fi""# },
+        Row { name: "read_1", files: FS3, terminal: &[], lhs: "\\openin 0 file1\\read 0 to \\line line1='\\line'\\read 0 to \\line line2='\\line'\\read 0 to \\line line3='\\line'\\ifeof 0 Closed\\else Open\\fi", rhs: "line1='1 'line2='2'line3='3 'Closed", sem: PIN_IFEOF, literal: r#""line1='1 'line2='2'line3='3 'Closed""# },
+        // read_2 uses an active character as target in the repository; the model has no active
+        // characters, the target is \line here (same expectation)
+        Row { name: "read_2(adapted)", files: FS3, terminal: &[], lhs: "\\openin 0 file2\\read 0 to \\line line1='\\line'\\ifeof 0 Closed\\else Open\\fi", rhs: "line1='1{ 2 3} 'Closed", sem: PIN_IFEOF, literal: r#""line1='1{ 2 3} 'Closed""# },
+        Row { name: "read_3", files: FS3, terminal: &[], lhs: "\\openin 0 file3\\read 0 to \\line line1='\\line'\\read 0 to \\line line2='\\line'", rhs: "line1='1'line2='2 '", sem: TEX, literal: r#""line1='1'line2='2 '""# },
+        Row { name: "read_4", files: FS3, terminal: &[], lhs: "\\def\\par{par}\\openin 0 file4\\read 0 to \\line line1='\\line'\\ifeof 0 Closed\\else Open\\fi", rhs: "line1='par'Closed", sem: TEX, literal: r#""line1='par'Closed""# },
+        Row { name: "read_from_terminal", files: FS3, terminal: TERM, lhs: "\\read 0 to \\line line1='\\line'\\read 0 to \\line line2='\\line'\\read 0 to \\line line3='\\line'", rhs: "line1='first-line 'line2='second-line { third-line } 'line3='fourth'", sem: TEX, literal: r#""line1='first-line 'line2='second-line { third-line } 'line3='fourth'""# },
+    ]
+}
+
+fn trim_one_space(s: &str) -> &str {
+    s.strip_suffix(' ').unwrap_or(s)
+}
+
+// ------------------------------------------------------------------------------------------
 
 impl Monitor for M {
     fn id(&self) -> &'static str {
         "C19"
     }
+
     fn rule(&self) -> String {
-        "not built yet".into()
+        "tree: random trees of files (nesting depth 0..5, 0..4 lines each, with/without final newline, empty \
+         and blank files, blank lines, files that leave groups/conditionals open or close their parent's, \
+         skipped text with \\input/\\endinput in it, \\input and \\endinput at random positions of a line and \
+         inside macro bodies, names ended by a blank or by the line end, with or without .tex), every word a \
+         unique marker; non-trivial = at least one \\input or \\endinput is executed; distinct by (files, main). \
+         place: the full product of 14 file shapes x 4 positions in a three-word line x blanks before x name \
+         ending x {\\input, \\endinput, each also inside a macro} x {line in main, in a file, last line without \
+         newline}. chain: \\input chains of depth 0..139 (five line shapes per level) and recursive cycles of \
+         1..3 files. read: 1..4 files of marker words, blanks, braces (groups over several lines, unmatched \
+         close braces, blank lines) and a random interleaving of 6..31 \\openin/\\read/\\ifeof/\\closein/group \
+         operations on 1..16 streams, half of the cases steered away from the known \\ifeof defect; non-trivial = \
+         at least one \\read from a file. readenum: all operation sequences of length 1..5 over {read, ifeof, \
+         closein, openin} x 12 file shapes. known: one fixed reproducer per finding."
+            .into()
     }
+
     fn assumptions(&self) -> Vec<String> {
-        vec![]
+        vec![
+            "No TeX binary exists here: the oracle is vmodels::inputfiles, our transcription of tex.web (sections listed in that file), calibrated against the 17 \\input/\\endinput/\\read/\\ifeof expectations in crates/texlang-stdlib/src/input.rs (two of which pin today's deviations and calibrate the deviation models instead).".into(),
+            "Programs stay inside a tiny language (marker words, blanks, newlines, braces, \\relax, \\iftrue/\\iffalse/\\else/\\fi, parameterless \\def, the six primitives); category codes and \\endlinechar are never changed.".into(),
+            "Kept out because TeX's own behaviour is a quirk or needs interaction: \\input behind an executed \\endinput on the same line (force_eof is global in TeX82: the NEW file would be cut after one line), a file that ends while conditional text is skipped (TeX: 'Incomplete \\if' error), missing \\input files, file names ended by anything but a blank or the line end, empty terminal lines.".into(),
+            "An \\input of a zero-byte file is judged by tex.web §538 ('If the file is empty, it is considered to contain a single blank line').".into(),
+            "Nesting limit: chains up to 95 files must work, from 102 on they must be refused with the documented error; 96..101 may go either way (the code counts its initial empty source).".into(),
+            "A \\read whose file ends inside a brace group is an error in TeX ('File ended within \\read'); the monitor only requires that the run reports an error there.".into(),
+            "\\global\\read is rejected by the code as unsupported and is not probed; local scope of the \\read target is.".into(),
+        ]
     }
-    fn phases(&self, _tier: Tier) -> Vec<Phase> {
-        vec![]
+
+    fn phases(&self, tier: Tier) -> Vec<Phase> {
+        vec![
+            Phase::new("known", 3).batch(1),
+            Phase::new("place", place_count()).batch(128).exhaustive(
+                "14 file shapes x 4 positions x 3 blank prefixes x 3 endings x 4 primitives x 3 hosts",
+            ),
+            Phase::new("readenum", readenum_count())
+                .batch(128)
+                .exhaustive("operation sequences of length 1..5 over {read,ifeof,closein,openin} x 12 file shapes"),
+            Phase::new("chain", tier.pick(800, 4000)).batch(8),
+            Phase::new("tree", tier.pick(24_000, 1_000_000)).batch(64),
+            Phase::new("read", tier.pick(16_000, 600_000)).batch(64),
+        ]
     }
-    fn run_case(&self, _phase: &str, _idx: u64, _rng: &mut Rng, _obs: &mut Obs) {}
+
+    fn floors(&self, tier: Tier) -> Vec<(&'static str, u64)> {
+        let s = match tier {
+            Tier::Quick => 1,
+            Tier::Thorough => 20,
+        };
+        vec![
+            ("calibration.rows_agree", 15),
+            ("m.inputs", 40_000 * s),
+            ("m.inputs_name_ended_by_space", 10_000 * s),
+            ("m.inputs_name_ended_by_eol", 5_000 * s),
+            ("m.inputs_from_token_list", 1_000 * s),
+            ("m.max_file_depth_5", 1_000 * s),
+            ("m.empty_file_inputs", 500 * s),
+            ("m.endinput_executed", 5_000 * s),
+            ("m.endinput_with_nonblank_rest", 1_000 * s),
+            ("m.endinput_from_token_list", 200 * s),
+            ("m.endinput_in_main", 200 * s),
+            ("m.lines_unread_behind_endinput", 2_000 * s),
+            ("m.file_left_group_open", 500 * s),
+            ("m.file_left_conditional_open", 500 * s),
+            ("m.file_closed_outer_group", 200 * s),
+            ("m.file_closed_outer_conditional", 200 * s),
+            ("m.par_tokens", 2_000 * s),
+            ("g.file_without_final_newline", 5_000 * s),
+            ("g.dead_chunk_spans_lines", 500 * s),
+            ("tree.pass", 5_000 * s),
+            ("tree.markers_checked", 100_000 * s),
+            ("tree.probes_checked", 20_000 * s),
+            ("diff.runs", 10_000 * s),
+            ("diff.equal", 5_000 * s),
+            ("place.pass", 1_000),
+            ("chain.ok_must_succeed", 100),
+            ("chain.refused_must_be_refused", 50),
+            ("chain.recursion_refused_with_documented_error", 50),
+            ("chain.num_sources_equals_depth", 100),
+            ("m.reads", 100_000 * s),
+            ("m.reads_multiline_group", 5_000 * s),
+            ("m.reads_unmatched_close_brace", 1_000 * s),
+            ("m.reads_of_appended_empty_line", 2_000 * s),
+            ("m.reads_from_terminal", 200 * s),
+            ("m.reads_inside_group", 2_000 * s),
+            ("m.ifeof_true", 10_000 * s),
+            ("m.ifeof_false", 10_000 * s),
+            ("m.openin_missing", 2_000 * s),
+            ("m.closein", 5_000 * s),
+            ("m.max_streams_open_16", 1),
+            ("read.pass", 4_000 * s),
+            ("read.cases_avoiding_known_trigger", 4_000 * s),
+            ("readenum.pass", 1_000),
+        ]
+    }
+
+    fn calibrate(&self, obs: &mut Obs) {
+        let src = std::fs::read_to_string(repo_dir().join("crates/texlang-stdlib/src/input.rs")).unwrap_or_default();
+        for row in rows() {
+            if !src.contains(row.literal) {
+                // the table in the repository changed: the row is no longer ground truth
+                obs.count("calibration.rows_no_longer_in_repository");
+                continue;
+            }
+            let fm: BTreeMap<String, String> = row.files.iter().map(|(a, b)| (a.to_string(), b.to_string())).collect();
+            let term: Vec<String> = row.terminal.iter().map(|s| s.to_string()).collect();
+            let l = model::run(&fm, &term, row.lhs, row.sem);
+            let r = model::run(&BTreeMap::new(), &[], row.rhs, TEX);
+            // the repository's comparison removes one trailing space token on both sides
+            if l.status == Status::Ok && r.status == Status::Ok && trim_one_space(&l.out) == trim_one_space(&r.out) {
+                obs.count("calibration.rows_agree");
+            } else {
+                obs.inconclusive(format!(
+                    "calibration: model disagrees with input.rs test `{}`: model {:?} ({:?}), repository {:?}",
+                    row.name, l.out, l.status, r.out
+                ));
+            }
+        }
+        // the two fatal_error_tests relevant here
+        let fm: BTreeMap<String, String> = FS3.iter().map(|(a, b)| (a.to_string(), b.to_string())).collect();
+        let e = model::run(&fm, &[], "\\openin 0 file5 \\read 0 to \\X (\\X)", TEX);
+        if matches!(e.status, Status::Error(_)) {
+            obs.count("calibration.rows_agree");
+        } else {
+            obs.inconclusive("calibration: file_has_unmatched_braces is not an error in the model");
+        }
+    }
+
+    fn run_case(&self, phase: &str, idx: u64, rng: &mut Rng, obs: &mut Obs) {
+        match phase {
+            "known" => known_case(idx, obs),
+            "place" => place_case(idx, obs),
+            "readenum" => readenum_case(idx, obs),
+            "chain" => chain_case(idx, rng, obs),
+            "tree" => tree_case(rng, obs),
+            "read" => read_case(rng, obs),
+            _ => obs.inconclusive(format!("unknown phase {phase}")),
+        }
+    }
 }
